@@ -402,13 +402,18 @@ def pslice(fn, operand, stop_at_calls=None, mutations=True, max_nodes=8000):
                 elif k == "agg":
                     tag = rv.get("adt") or rv.get("def") or rv["agg"]
                     fsel, rest = None, []
+                    other_variant = False
                     for n, e in enumerate(res):
                         if isinstance(e, dict) and "dc" in e:
+                            if rv.get("agg") == "adt" and rv.get("variant") and e["dc"] is not None and e["dc"] != rv["variant"]:
+                                other_variant = True    # `(x as AllOf).0` never reads what `x = Not(..)` stored (private carrier enums)
                             continue
                         if isinstance(e, dict) and "f" in e:
                             fsel, rest = e["f"], res[n + 1:]
                         break
-                    if fsel is not None and fsel < len(rv["ops"]):
+                    if other_variant:
+                        pass
+                    elif fsel is not None and fsel < len(rv["ops"]):
                         push_op(rv["ops"][fsel], rest)
                     else:
                         atoms.add(("agg", tag, rv.get("variant")))
@@ -523,6 +528,7 @@ class Origins:
         self.aggs = set()        # (adt, variant) aggregates on the slice
         self.locals = set()      # (fn id, local) visited
         self.call_sites = set()  # (fn id, bb) of calls on the slice
+        self.consts = set()      # (path, json of the evaluated value) of named constants on the slice
 
     def update(self, o):
         self.fields |= o.fields
@@ -534,6 +540,7 @@ class Origins:
         self.aggs |= o.aggs
         self.locals |= o.locals
         self.call_sites |= o.call_sites
+        self.consts |= o.consts
 
 
 class Flow:
@@ -580,7 +587,11 @@ class Flow:
         while changed:
             changed = False
             for bb, i, s in p.stmts():
-                if s["rv"]["rv"] == "use" and operand_local(s["rv"]["op"]) in locs and not s["pl"]["p"] and s["pl"]["l"] not in locs:
+                if s["pl"]["p"] or s["pl"]["l"] in locs:
+                    continue
+                rv = s["rv"]
+                if (rv["rv"] == "use" and operand_local(rv["op"]) in locs) or \
+                        (rv["rv"] == "ref" and rv["pl"]["l"] in locs and all(e == "*" for e in rv["pl"]["p"])):    # `Fn::call(&f, (x,))`
                     locs.add(s["pl"]["l"])
                     changed = True
         out = []
@@ -633,6 +644,8 @@ class Flow:
         for a in sl.atoms:
             if a[0] in ("lit", "const"):
                 v = a[1] if a[0] == "lit" else a[2]
+                if a[0] == "const":
+                    out.consts.add((a[1], a[2]))
                 if v and v != "null":
                     try:
                         d = json.loads(v)
@@ -708,6 +721,11 @@ class Flow:
                         out.update(self.origins(p, o, False, seen, depth + 1))
                 else:
                     recv = self.closure_receivers(p, st)
+                    if came_from is not None and p.id == came_from[0]:
+                        # one closure value handed to several calls (`let cast = |f| f as i64; a.map(cast); bound(b, c, cast)`):
+                        # the item it is applied to is the one of the call through which the slice reached it
+                        via = [r for r in recv if not r[1]["dest"]["p"] and r[1]["dest"]["l"] in came_from[1]]
+                        recv = via or recv
                     if not recv:
                         out.roots.add((fn.id, i))
                     for cbb, t, k in recv:
@@ -925,6 +943,14 @@ class ChainOps:
         for a in sl.atoms:
             if a[0] in ("binop", "unop"):
                 out.add((a[0], a[1]))
+            elif a[0] == "fnitem":
+                # a function passed as a value (`.map(str::to_owned)`, `bound(a, b, std::convert::identity)`) is applied to the value
+                g = self.facts.F.get(a[1])
+                if g is None:
+                    out.add(("call", a[1]))
+                elif g.raw["id"] not in self.no_descend:
+                    out.add(("call", a[1]))
+                    out |= self.fn_ops(g, depth)
             elif a[0] == "agg":
                 g = self.facts.F.get(a[1]) if isinstance(a[1], str) else None
                 if g is not None and g.raw["kind"] == "Closure":
